@@ -100,7 +100,7 @@ func RunFlattenOnDisk(b *Bundle, o Opts, dir string) (*Outcome, error) {
 			return
 		}
 		err = analysis.Flatten(analysis.FlattenOpts{Spec: analysis.New(sw), BasePath: filepath.Join(dir, b.Root),
-			Minimal: o.Minimal, Expand: o.Expand, RemoveUnused: o.RemoveUnused, KeepNames: o.KeepNames, ContinueOnError: o.ContinueOnError})
+			Minimal: o.Minimal, Expand: o.Expand, RemoveUnused: o.RemoveUnused, KeepNames: o.KeepNames, ContinueOnError: o.ContinueOnError, Verbose: o.Verbose})
 		if err != nil {
 			out.Err = err.Error()
 			return
@@ -124,6 +124,7 @@ type Opts struct {
 	RemoveUnused    bool `json:"remove_unused,omitempty"`
 	KeepNames       bool `json:"keep_names,omitempty"`
 	ContinueOnError bool `json:"continue_on_error,omitempty"`
+	Verbose         bool `json:"verbose,omitempty"`
 }
 
 func (o Opts) String() string {
@@ -144,6 +145,9 @@ func (o Opts) String() string {
 	}
 	if o.ContinueOnError {
 		s = append(s, "continueonerror")
+	}
+	if o.Verbose {
+		s = append(s, "verbose")
 	}
 	return strings.Join(s, "+")
 }
@@ -312,7 +316,7 @@ func RunFlatten(b *Bundle, o Opts, env Env, fault func(n int, path string) Fault
 		}
 		err = analysis.Flatten(analysis.FlattenOpts{
 			Spec: an, BasePath: VRoot + "/" + b.Root,
-			Minimal: o.Minimal, Expand: o.Expand, RemoveUnused: o.RemoveUnused, KeepNames: o.KeepNames, ContinueOnError: o.ContinueOnError,
+			Minimal: o.Minimal, Expand: o.Expand, RemoveUnused: o.RemoveUnused, KeepNames: o.KeepNames, ContinueOnError: o.ContinueOnError, Verbose: o.Verbose,
 		})
 		if err != nil {
 			res.Err = err.Error()
